@@ -208,7 +208,13 @@ Definition hdrs_of (x : xkind) (code : N) : option req_hdrs :=
   end.
 
 Inductive drun := DRun (cuts : list fcut) (hdr : N) (h : hobs) (polled : N).
-Inductive lrun := LRun (status : N) (h : hobs) (healthy : bool).
+Inductive lrun :=
+| LRun (status : N) (h : hobs) (healthy : bool)
+  (* the request carried BOTH Transfer-Encoding: chunked and a Content-Length
+     header with text [cl], before ([cl_first]) or after the Transfer-Encoding
+     line.  RFC 9112 6.3: Transfer-Encoding overrides Content-Length: the body
+     is what the chunked coding carries (the case's body). *)
+| LRunB (cl : str) (cl_first : bool) (status : N) (h : hobs) (healthy : bool).
 (* a run on a body too large to expand here (see CAbs): [cuts] = Some: direct
    run on data frames of these sizes; None: live run.  In [h] the checksum
    field is 1 if the harness found the delivered bytes equal to the initial
@@ -475,9 +481,9 @@ Definition witness_frames (cap : N) (body : str) (h : hobs) : list frame :=
       else [FData (firstn (N.to_nat cap) body); FData (skipn (N.to_nat cap) body)]
   end.
 
-Definition judge_live (x : xkind) (ov : option N) (def : N) (bi : binfo) (r : lrun) : N :=
+Definition judge_live_obs (x : xkind) (ov : option N) (def : N) (bi : binfo)
+           (st : N) (h : hobs) (healthy : bool) : N :=
   let body := bi_body bi in
-  let '(LRun st h healthy) := r in
   let cap := effective_cap ov def in
   let rq := mk_rq x ov def in
   match hdrs_of x 0 with
@@ -591,6 +597,50 @@ Definition abs_binfo (x : xkind) (segs : list seg) : option binfo :=
   match abs_rlen x segs with
   | Some rlen => Some (BI [] (segs_len segs) [] rlen (cks []) true)
   | None => None
+  end.
+
+(* hyper 1.6 (measured contract, trusted base): a Content-Length line that
+   PRECEDES Transfer-Encoding: chunked is still validated by the HTTP layer
+   before dropshot sees the request — not decimal digits or overflowing u64:
+   400; above u64::MAX-2 (hyper's largest representable length): 431 — and
+   otherwise kept in the header map but not used for framing.  A
+   Content-Length that FOLLOWS the Transfer-Encoding line is dropped unread. *)
+Fixpoint parse_dec_from (acc : N) (s : str) : option N :=
+  match s with
+  | [] => Some acc
+  | c :: r => if (48 <=? c) && (c <=? 57) then parse_dec_from (acc * 10 + (c - 48)) r else None
+  end.
+Definition parse_dec (s : str) : option N :=
+  match s with [] => None | _ => parse_dec_from 0 s end.
+
+Definition http_layer_refuses (cl : str) (cl_first : bool) : option N :=
+  if cl_first then
+    match parse_dec cl with
+    | None => Some 400
+    | Some n =>
+        if two64 <=? n then Some 400
+        else if two64 - 3 <? n then Some 431
+        else None
+    end
+  else None.
+
+Definition judge_live (x : xkind) (ov : option N) (def : N) (bi : binfo) (r : lrun) : N :=
+  match r with
+  | LRun st h healthy => judge_live_obs x ov def bi st h healthy
+  | LRunB cl cl_first st h healthy =>
+      match http_layer_refuses cl cl_first with
+      | Some e =>
+          (* malformed framing header: refused below dropshot, no handler *)
+          if (st =? e) && hobs_eqb h (HRefused e) && healthy then V_AGREE
+          else
+            let v := judge_live_obs x ov def bi st h healthy in
+            if v =? V_AGREE then V_DIVERGE else v
+      | None =>
+          (* whatever the Content-Length says, the verdict is the one on the
+             bytes the chunked coding carried: within the cap -> accepted and
+             delivered intact, over -> refused (else code 1) *)
+          judge_live_obs x ov def bi st h healthy
+      end
   end.
 
 Definition judge (c : c11case) : N :=
